@@ -176,12 +176,28 @@ fn mint_just_expired() -> Option<Vec<u8>> {
     let now = std::time::SystemTime::now().duration_since(std::time::UNIX_EPOCH).ok()?.as_secs();
     let run = |args: &[&str]| std::process::Command::new("openssl").args(args).stdin(std::process::Stdio::null()).stdout(std::process::Stdio::null()).stderr(std::process::Stdio::null()).status().map(|s| s.success()).unwrap_or(false);
     let csr = work.join("je.csr");
-    let ext = work.join("je.ext");
     let pem = work.join("je.pem");
     let der = work.join("je.der");
-    std::fs::write(&ext, "basicConstraints=critical,CA:FALSE\nkeyUsage=critical,digitalSignature\nextendedKeyUsage=serverAuth\nsubjectAltName=DNS:localhost,IP:127.0.0.1\n").ok()?;
+    // `openssl ca` accepts an end date in the past on OpenSSL 3.0 as well as on later versions
+    // (`x509 -req -not_after` needs >= 3.4)
+    let cnf = work.join("ca.cnf");
+    let w = work.to_str()?;
+    std::fs::write(
+        &cnf,
+        format!(
+            "[ ca ]\ndefault_ca = CA_default\n[ CA_default ]\ndir = {w}\ndatabase = {w}/index.txt\nnew_certs_dir = {w}\nserial = {w}/serial\ncertificate = {ca}\nprivate_key = {key}\ndefault_md = sha256\npolicy = pol\nunique_subject = no\ncopy_extensions = none\n[ pol ]\ncommonName = supplied\n[ ext ]\nbasicConstraints = critical,CA:FALSE\nkeyUsage = critical,digitalSignature\nextendedKeyUsage = serverAuth\nsubjectAltName = DNS:localhost,IP:127.0.0.1\n",
+            ca = fx.join("testca.cert.pem").to_str()?,
+            key = fx.join("testca.key.pem").to_str()?
+        ),
+    )
+    .ok()?;
+    std::fs::write(work.join("index.txt"), "").ok()?;
+    std::fs::write(work.join("serial"), format!("{:x}\n", now | 1)).ok()?;
+    // UTCTime: YYMMDDHHMMSSZ
+    let start = utc_stamp(now - 3600);
+    let end = utc_stamp(now - 20);
     let ok = run(&["req", "-new", "-key", fx.join("valid.key.pem").to_str()?, "-subj", "/CN=sim printer justexpired", "-out", csr.to_str()?])
-        && run(&["x509", "-req", "-in", csr.to_str()?, "-CA", fx.join("testca.cert.pem").to_str()?, "-CAkey", fx.join("testca.key.pem").to_str()?, "-set_serial", &format!("{}", now), "-sha256", "-not_before", &utc_stamp(now - 3600), "-not_after", &utc_stamp(now - 20), "-extfile", ext.to_str()?, "-out", pem.to_str()?])
+        && run(&["ca", "-batch", "-config", cnf.to_str()?, "-in", csr.to_str()?, "-out", pem.to_str()?, "-startdate", &start[2..], "-enddate", &end[2..], "-extensions", "ext", "-notext"])
         && run(&["x509", "-in", pem.to_str()?, "-outform", "DER", "-out", der.to_str()?]);
     let out = if ok { std::fs::read(&der).ok() } else { None };
     let _ = std::fs::remove_dir_all(&work);
